@@ -373,11 +373,12 @@ func rewriteFile(fset *token.FileSet, f *ast.File, rel string, stats map[string]
 		case *ast.GoStmt:
 			gv := fmt.Sprintf("__vg%d", tmp)
 			tmp++
-			capture := &ast.AssignStmt{Lhs: []ast.Expr{ast.NewIdent(gv)}, Tok: token.DEFINE, Rhs: []ast.Expr{call("Group")}}
+			ov := gv + "o"
+			capture := &ast.AssignStmt{Lhs: []ast.Expr{ast.NewIdent(gv), ast.NewIdent(ov)}, Tok: token.DEFINE, Rhs: []ast.Expr{call("Group"), call("NextOrd")}}
 			if fl, ok := n.Call.Fun.(*ast.FuncLit); ok {
 				fl.Body.List = append([]ast.Stmt{
 					&ast.DeferStmt{Call: call("Recover", str("go@"+pos(n)))},
-					&ast.ExprStmt{X: call("Start", str("go@"+pos(n)), ast.NewIdent(gv))}}, fl.Body.List...)
+					&ast.ExprStmt{X: call("Start", str("go@"+pos(n)), ast.NewIdent(gv), ast.NewIdent(ov))}}, fl.Body.List...)
 				if _, labelled := c.Parent().(*ast.LabeledStmt); labelled {
 					die("%s: labelled go statement not supported", pos(n))
 				}
@@ -393,7 +394,7 @@ func rewriteFile(fset *token.FileSet, f *ast.File, rel string, stats map[string]
 				inner := &ast.CallExpr{Fun: n.Call.Fun, Args: n.Call.Args, Ellipsis: n.Call.Ellipsis}
 				n.Call = &ast.CallExpr{Fun: &ast.FuncLit{Type: &ast.FuncType{Params: &ast.FieldList{}}, Body: &ast.BlockStmt{List: []ast.Stmt{
 					&ast.DeferStmt{Call: call("Recover", str("go@"+pos(n)))},
-					&ast.ExprStmt{X: call("Start", str("go@"+pos(n)), ast.NewIdent(gv))},
+					&ast.ExprStmt{X: call("Start", str("go@"+pos(n)), ast.NewIdent(gv), ast.NewIdent(ov))},
 					&ast.ExprStmt{X: inner},
 				}}}}
 				c.Replace(&ast.BlockStmt{List: []ast.Stmt{capture, n}})
